@@ -177,6 +177,7 @@ func genC15(t *rapid.T, tier string) (*World, any) {
 		{"crs", ""}, {"crs", "."}, {"", "crs"}, {"crs/rules", ".."}, {"", "crs/rules"}, {"", "crs/tests/regression/tests"},
 		{"crs/nested", ""}, {"", "crs/nested/rules"}, {"crs", "nested"}, {"outside", "../crs"}, {"", "crs/regex-assembly/include"},
 		{"crs/docs", ".."}, {"crs/nested/docs", "../.."},
+		{"", "crs/rules/vendor"}, {"", "crs/plugins-shared"}, {"crs", "rules/vendor"}, // through a linked directory (where the tree has one): the ancestors of the path as given count
 		{"crs/rules", ""}, {"", ""}, // without -d the working directory itself is the root: nothing to find there
 	}
 	maxSteps := 4
